@@ -80,12 +80,18 @@ type Doc struct {
 // ---------------------------------------------------------------- generators
 
 func genProgram(t *rapid.T, variant string) drive.Program {
-	p := drive.Program{Cfg: gen.Config(t), Keys: gen.Keys(t, 3, 10)}
+	// the memtable configuration matters little for the log; small tables (with
+	// their background flushes and log rotations) stay in as a minority
+	cfg := gen.Config(t)
+	if rapid.IntRange(0, 3).Draw(t, "bigmem") != 0 {
+		cfg.MemTableSize = 32 << 20
+	}
+	p := drive.Program{Cfg: cfg, Keys: gen.Keys(t, 3, 10)}
 	size := rapid.SampledFrom([]string{"s", "s", "s", "s", "s", "s", "m", "m", "l"}).Draw(t, "hsize")
 	var n int
 	switch {
 	case size == "s":
-		n = rapid.IntRange(3, 25).Draw(t, "nsteps")
+		n = rapid.IntRange(1, 25).Draw(t, "nsteps")
 	case size == "m" || variant == "engine":
 		n = rapid.IntRange(26, 60).Draw(t, "nsteps")
 	default:
@@ -98,6 +104,9 @@ func genProgram(t *rapid.T, variant string) drive.Program {
 	tag := uint32(1)
 	for i := 0; i < n; i++ {
 		op := rapid.SampledFrom(ops).Draw(t, "op")
+		if i == 0 {
+			op = "put"
+		}
 		if (op == "tx" || op == "batch") && !ev.Flag("primary_tx") {
 			ev.R().Exclude("primary_tx")
 			op = "put"
@@ -190,7 +199,7 @@ func decorate(t *rapid.T, m *Msg, avail int) {
 	}
 	m.Enc = rapid.SampledFrom(encs).Draw(t, "enc")
 	m.Ack = rapid.IntRange(0, 9).Draw(t, "waitingpath") == 0
-	if rapid.IntRange(0, 15).Draw(t, "applyerr") == 0 {
+	if avail >= 1 && rapid.IntRange(0, 15).Draw(t, "applyerr") == 0 {
 		if ev.Flag("apply_error") {
 			m.FailAt = rapid.IntRange(1, min(avail, 4)).Draw(t, "failat")
 		} else {
